@@ -80,18 +80,7 @@ RULE = ('std: exhaustive small sizes x all argument values in [-n-2, n+3] U {Non
         'non-trivial = more than one tile and a non-whole region, or a refusal; distinct by case hash')
 EXHAUSTIVE = {'quick': False, 'thorough': False}
 
-
-def _end0_via_volume(c):
-    """signature of the OPEN finding: tiled get_volume with the one-based row_end / column_end 0 returns all
-    rows / columns but the last instead of refusing (C04_volume_region_agrees_refuted)"""
-    if c.get('kind') == 'img_vol':
-        return any((not rg[0]) and (rg[2] == 0 or rg[4] == 0) for rg in c['regions'])
-    if c.get('kind') == 'seg_reads':
-        return any(vv and (not rg[0]) and (rg[2] == 0 or rg[4] == 0) for _, vv, _, rg in c['reads'])
-    return False
-
-
-FINDINGS = {'D100': _end0_via_volume}
+FINDINGS = {}    # D100 (tiled get_volume with the one-based end 0), found by this check, was fixed in /repo
 
 
 # --------------------------------------------------------------------------
@@ -414,8 +403,8 @@ def _gen_seg_reads(rng):
         mode = 'planes'
         if m['ty'] == 'LABELMAP':
             mode = rng.choice(['planes', 'combined', 'relabel'])
-        if mode == 'planes' and sel and rng.random() < 0.2:
-            sel = sel + [rng.choice(sel)]            # duplicated request
+        if sel and rng.random() < (0.5 if mode == 'relabel' else 0.2):
+            sel = sel + [rng.choice(sel)]            # duplicated request (first occurrence counts for relabel)
         via_volume = rng.random() < 0.4
         rg = _region(rng, R, C, th, tw, pbad=0.15)
         if via_volume and rng.random() < 0.12:
@@ -506,11 +495,11 @@ def gen_cases(rng, tier):
             drop = sorted(rng.sample(range(nt), rng.randint(1, max(1, nt // 3))))
         regions = [[False, None, None, None, None]] + [_region(rng, R, C, th, tw) for _ in range(6)]
         # the one-based end 0 (denotes no region) on either axis
-        if rng.random() < 0.3:
-            rg0 = _region(rng, R, C, th, tw, pbad=0.0)
-            rg0[0] = False
-            rg0[rng.choice([2, 4])] = 0
-            regions.append(rg0)
+        # the one-based end 0 (denotes no region; D100) on either axis
+        rg0 = _region(rng, R, C, th, tw, pbad=0.0)
+        rg0[0] = False
+        rg0[rng.choice([2, 4])] = 0
+        regions.append(rg0)
         cases.append({'kind': 'img_vol', 'R': R, 'C': C, 'th': th, 'tw': tw, 'full': full, 'samples': samples,
                       'px': _pixels(rng, R, C, samples), 'drop': drop, 'dup': None, 'regions': regions})
     # ---- Segmentation reads: segment_numbers, output modes, get_volume ---------------------
@@ -1094,8 +1083,8 @@ def _seg_reads_oracle(c, out):
             want = np.where(np.isin(L, sel), L, 0)[r0:r1, c0:c1].tolist()
         else:
             lut = np.zeros(nseg + 1, np.int64)
-            for i, s_ in enumerate(sel):
-                lut[s_] = i + 1
+            for s_ in set(sel):
+                lut[s_] = sel.index(s_) + 1      # a segment requested twice is shown at its first position
             want = lut[L][r0:r1, c0:c1].tolist()
         if o != want:
             return f'{what}: got {str(o)[:200]} expected {str(want)[:200]}'
@@ -1119,8 +1108,6 @@ def oracle(c, out):
             b = ref_axis(c['C'], ai, cs, None) is not None and ref_axis(c['C'], ai, None, ce) is not None
             if a and b and (s > e or s2 > e2):
                 return None       # start beyond end: refused downstream (checked in img/seg kinds)
-            if not ai and (re == 0 or ce == 0) and (e == 0 or e2 == 0):
-                return None       # 1-based end 0 passed through as 0: start >= 1 > end, refused downstream
             return f'arguments outside the documented conventions accepted: {out}'
         if isinstance(out, Err):
             return f'valid region refused: {out}'
